@@ -745,6 +745,15 @@ func (c *c09ctx) analyseFunc(fn *ssa.Function) {
 			c.site(ins, "", "").note = "discharged by sibling-table agreement + comparator call sites"
 			return
 		}
+		if name == "Bytes" {
+			// the receiver was converted to []byte just before: Convert(x, TypeOf([]byte)) yields a slice of bytes
+			if f2, _ := calleeOfSym(recv); isReflectMethod(f2, "Convert") {
+				if a2 := symArgs(st, recv); len(a2) == 2 && isByteSliceType(c.prog, st, a2[1]) {
+					c.record(ins, "reflect-value", f.Name()+":Value."+name, true, "", st)
+					return
+				}
+			}
+		}
 		req, ok := valueMethodReq[name]
 		if !ok {
 			c.record(ins, "reflect-value", f.Name()+":Value."+name, false, "reflect.Value."+name+" has no entry in the precondition table", st)
@@ -1201,7 +1210,11 @@ func (c *c09ctx) assertOK(f *ssa.Function, st *pstate, x *Sym, target types.Type
 								continue
 							}
 							if fn4, call4 := calleeOfSym(rel.other); isReflectFunc(fn4, "TypeOf") && call4 != nil {
-								if a4 := symArgs(st, rel.other); len(a4) == 1 && a4[0].K == sMkIface && a4[0].A.T != nil && types.Identical(types.Default(a4[0].A.T), target) {
+								a4 := symArgs(st, rel.other)
+								if len(a4) == 0 && c.prog.SSA != nil {
+									a4 = symArgs(c.prog.Globals().st, rel.other) // a type computed once by a package-level initialiser
+								}
+								if len(a4) == 1 && a4[0].K == sMkIface && a4[0].A.T != nil && types.Identical(types.Default(a4[0].A.T), target) {
 									return true, ""
 								}
 							}
